@@ -39,7 +39,10 @@ Inductive iobs :=
 Inductive case :=
 | CRaw (steps : list (rop * robs))            (* a history starting from RawVector::new() *)
 | CInt (w : N) (steps : list (iop * iobs))    (* a history starting from IntVector::new(w).unwrap() *)
-| CNew (w : N) (ok : bool).                   (* IntVector::new(w).is_ok() *)
+| CNew (w : N) (ok : bool)                    (* IntVector::new(w).is_ok() *)
+(* RawVector::with_len(n, value).count_ones() for an n too large to replay on a list of words (2^32 bits and
+   more); [dbg] records whether the build had overflow checks on (the expected result does not depend on it) *)
+| CBigCount (dbg : bool) (n : N) (value : bool) (out : ires N).
 
 Definition obool_eqb := opt_eqb Bool.eqb.
 Definition out_eqb (a b : out) : bool :=
@@ -160,6 +163,12 @@ Definition check (c : case) : N :=
   | CNew w ok =>
       code (Bool.eqb (match iv_new w with Some _ => true | None => false end) ok)
            (Bool.eqb ((1 <=? w) && (w <=? 64)) ok)
+  | CBigCount _ n value o =>
+      (* model side: the model vector is NOT built; by theorem C05_big_with_len_count (Props/C05_big.v)
+         [raw_with_len n value = Ok r] with [raw_count_ones r = if value then n else 0] for every n.
+         spec side: a sequence of n copies of [value] has n (resp. 0) set bits, and the call must return *)
+      code (res_agree N.eqb (Ok (if value then n else 0)) o)
+           (match o with IOk x => if value then x =? n else x =? 0 | IPanic _ => false end)
   end.
 
 (* diagnostic used by ./check --replay: index of the first step at which each side disagrees *)
@@ -192,6 +201,7 @@ Definition explain (c : case) : option N * option N :=
                     let '(o, ob) := s in
                     if iv_spec_ok st [s] then Some (if iop_preb st o then fst (ispec_step st o) else st) else None) (w, []) steps 0)
   | CNew _ _ => (None, None)
+  | CBigCount _ _ _ _ => (None, None)
   end.
 
 (* the generated case files write their large literals with the primitive-integer number notation *)
